@@ -92,9 +92,11 @@ def showOut : Out → String
 
 def stepLine (s : St) (toks : List String) : St × String :=
   match toks with
-  | ["new", c] => match c.toNat? with | some (c + 1) => (init (c + 1), "ok") | _ => (s, "bad-op")
+  -- capacity 0 is legal to construct: Offer drops everything, Poll is empty, ForceOffer panics
+  -- (index out of range on the empty buffer, nothing changed before); outside the theorems (`0 < c`)
+  | ["new", c] => match c.toNat? with | some c => (init c, "ok") | _ => (s, "bad-op")
   | ["offer", x] => match x.toNat? with | some x => let r := step s (.offer x); (r.1, showOut r.2) | none => (s, "bad-op")
-  | ["force", x] => match x.toNat? with | some x => let r := step s (.force x); (r.1, showOut r.2) | none => (s, "bad-op")
+  | ["force", x] => match x.toNat? with | some x => if s.cap = 0 then (s, "panic") else let r := step s (.force x); (r.1, showOut r.2) | none => (s, "bad-op")
   | ["poll"] => let r := step s .poll; (r.1, showOut r.2)
   | ["size"] => let r := step s .size; (r.1, showOut r.2)
   | ["cap"] => let r := step s .cap; (r.1, showOut r.2)
